@@ -1,6 +1,7 @@
 package main
 
 import (
+	"go/ast"
 	"go/token"
 	"go/types"
 
@@ -72,9 +73,11 @@ func runC09(c *Ctx) {
 		cl, ok := ins.(*ssa.Call)
 		return ok && callName(cl) == "builtin.close" && chanFromField(cl.Call.Args[0], "Future", field)
 	}
-	for _, fn := range c.srcFuncs(interpPkg) {
-		var settles []ssa.Instruction
-		var resolvedLoads []ssa.Value
+	// settle helpers: unexported methods of Future that settle without testing `resolved` themselves and are only
+	// called from inside the package (completeLocked-style tails of Resolve/Reject/Cancel). Their obligation is lifted
+	// to the call sites: a call of a settle helper is a settling write and a close(done) of the caller.
+	settleHelper := map[*ssa.Function]bool{}
+	scan := func(fn *ssa.Function) (settles []ssa.Instruction, resolvedLoads []ssa.Value) {
 		eachInstr(fn, func(_ *ssa.BasicBlock, _ int, ins ssa.Instruction) {
 			if st, ok := ins.(*ssa.Store); ok {
 				for _, f := range []string{"state", "value", "err", "resolved"} {
@@ -86,10 +89,60 @@ func runC09(c *Ctx) {
 			if isCloseOf(ins, "done") {
 				settles = append(settles, ins)
 			}
+			if cl, ok := ins.(*ssa.Call); ok {
+				if sf := staticFn(cl); sf != nil && settleHelper[sf] {
+					settles = append(settles, ins)
+				}
+			}
 			if u, ok := ins.(*ssa.UnOp); ok && loadedFromField(u, "Future", "resolved") {
 				resolvedLoads = append(resolvedLoads, u)
 			}
 		})
+		return
+	}
+	for changed := true; changed; {
+		changed = false
+		for _, fn := range c.srcFuncs(interpPkg) {
+			if settleHelper[fn] || fn.Signature.Recv() == nil || !typeIs(fn.Signature.Recv().Type(), modPath+"/"+interpPkg, "Future") || ast.IsExported(fn.Name()) {
+				continue
+			}
+			st, rl := scan(fn)
+			if len(st) == 0 || len(rl) > 0 {
+				continue
+			}
+			callers := 0
+			for _, g := range c.srcFuncs(interpPkg) {
+				eachCall(g, func(cl ssa.CallInstruction) {
+					if staticFn(cl) == fn {
+						callers++
+					}
+				})
+			}
+			if callers > 0 {
+				settleHelper[fn] = true
+				changed = true
+			}
+		}
+	}
+	isCloseOfDone := func(ins ssa.Instruction) bool {
+		if isCloseOf(ins, "done") {
+			return true
+		}
+		if cl, ok := ins.(*ssa.Call); ok {
+			if sf := staticFn(cl); sf != nil && settleHelper[sf] {
+				closes := false
+				eachInstr(sf, func(_ *ssa.BasicBlock, _ int, x ssa.Instruction) {
+					if isCloseOf(x, "done") {
+						closes = true
+					}
+				})
+				return closes
+			}
+		}
+		return false
+	}
+	for _, fn := range c.srcFuncs(interpPkg) {
+		settles, resolvedLoads := scan(fn)
 		if len(settles) == 0 {
 			continue
 		}
@@ -114,19 +167,25 @@ func runC09(c *Ctx) {
 		if hit != nil {
 			p = hit.Pos()
 		}
+		if settleHelper[fn] {
+			c.info("C09-R1", fnKey(fn)+"#settle-helper", fn.Pos(), "settles without testing resolved itself; every call site is held to the obligation instead")
+			hit = nil
+		}
 		c.ob("C09-R1", fnKey(fn)+"#settle-only-if-not-resolved", p, hit == nil, "a settling write / close(done) is reachable without having observed resolved==false: a second Resolve/Reject/Cancel overwrites the outcome or closes done twice (panic)", c.blockPath(path)...)
 		// resolved=true before close(done); single close
 		for _, s := range settles {
-			if !isCloseOf(s, "done") {
+			if !isCloseOfDone(s) {
 				continue
 			}
-			q2 := &pathQuery{fn: fn, target: func(x ssa.Instruction) bool { return x == s }, stop: func(x ssa.Instruction) bool {
-				st, ok := x.(*ssa.Store)
-				return ok && isStoreToField(st, "Future", "resolved") && isConstBool(st.Val, true)
-			}}
-			h2, p2 := q2.fromEntry()
-			c.ob("C09-R1", fnKey(fn)+"#resolved-set-before-close-done", s.Pos(), h2 == nil, "done is closed on a path that has not marked the future resolved", c.blockPath(p2)...)
-			q3 := &pathQuery{fn: fn, target: func(x ssa.Instruction) bool { return isCloseOf(x, "done") }}
+			if isCloseOf(s, "done") { // a helper that closes done is held to this in its own body
+				q2 := &pathQuery{fn: fn, target: func(x ssa.Instruction) bool { return x == s }, stop: func(x ssa.Instruction) bool {
+					st, ok := x.(*ssa.Store)
+					return ok && isStoreToField(st, "Future", "resolved") && isConstBool(st.Val, true)
+				}}
+				h2, p2 := q2.fromEntry()
+				c.ob("C09-R1", fnKey(fn)+"#resolved-set-before-close-done", s.Pos(), h2 == nil, "done is closed on a path that has not marked the future resolved", c.blockPath(p2)...)
+			}
+			q3 := &pathQuery{fn: fn, target: func(x ssa.Instruction) bool { return isCloseOfDone(x) }}
 			h3, p3 := q3.after(s)
 			c.ob("C09-R1", fnKey(fn)+"#single-close-done", s.Pos(), h3 == nil, "a second close(done) is reachable after the first", c.blockPath(p3)...)
 			// the outcome fields are written before done is closed: no store to value/err/state after close
